@@ -20,7 +20,7 @@ ASSUMPTIONS = ['binary-shape comparisons skip pixels whose exactly computed edge
 PLAN = {'quick': {'gen': 8}, 'thorough': {'gen': 16, 'tests': 1, 'docs': 1}}
 REQUIRED_BUCKETS = ['pad:2d', 'pad:cube', 'pad:nonsquare-cube', 'pad:grow', 'pad:shrink', 'pad:mixed',
                     'pad:parity-change', 'subarray', 'window', 'boundary', 'slice_offset', 'centroid', 'rebin',
-                    'rebin:cube', 'mesh', 'shape:circle', 'shape:hexagon', 'shape:rectangle', 'shape:spider', 'shape:binary',
+                    'rebin:cube', 'mesh', 'shape:circle', 'shape:hexagon', 'shape:rectangle', 'shape:spider', 'shape:sequence', 'shape:binary',
                     'shape:antialias', 'hexseg', 'hexseg:gap0', 'hexseg:drop']
 REQUIRED_ANCHORS = ['probe:pad', 'anchor:mesh', 'anchor:hex_to_rc', 'anchor:slice_offset', 'anchor:boundary_slice']
 REQUIRED_ORACLES = ['pad=index', 'pad-crop=id', 'subarray=index', 'window=index', 'boundary=set',
@@ -231,8 +231,15 @@ def workload(ctx, lentil):
             t = (max(1, s[0] - int(rng.integers(0, 6))), max(1, s[1] - int(rng.integers(0, 6))))
         k = int(rng.integers(1, 4))
         a = rng.normal(size=((k,) + s) if cube else s)
-        if rng.random() < 0.3:
+        r_ = rng.random()
+        if r_ < 0.3:
             a = (a * 10).astype(int)
+        elif r_ < 0.4:
+            a = a > 0
+        elif r_ < 0.5:
+            a = a + 1j * rng.normal(size=a.shape)
+        elif r_ < 0.55:
+            a = a.astype(np.float32)
         grow = [t[0] > s[0], t[1] > s[1]]
         shrink = [t[0] < s[0], t[1] < s[1]]
         bk = ['pad:cube' if cube else 'pad:2d']
@@ -344,6 +351,8 @@ def workload(ctx, lentil):
         s = (f * int(rng.integers(1, 6)), f * int(rng.integers(1, 6)))
         cube = rng.random() < 0.4
         a = rng.normal(size=((int(rng.integers(1, 4)),) + s) if cube else s)
+        if rng.random() < 0.3:
+            a = np.round(a * 100).astype(np.int64 if rng.random() < 0.5 else np.int32)      # counts
         desc = {'op': 'rebin', 'in': list(a.shape), 'factor': f}
         ctx.case(desc, ['rebin'] + (['rebin:cube'] if cube else []), nontrivial=a.size > 1)
         got = U.rebin(a, f)
@@ -426,6 +435,35 @@ def workload(ctx, lentil):
             valid &= sshift & (_margin(kind, s, p, (a, b)) > 1e-9)
         ctx.check(bool(np.all(np.abs(m1 - ref)[valid] <= tol)), 'shape:translate', f'shape|translate|{kind}',
                   'shape does not translate exactly under an integer shift', dict(desc, shift=[a, b]))
+
+    # ---- sequences: the same drawing call repeated with one argument changed at a time must behave as fresh calls do -------
+    for i in range(n // 4):
+        s = _rs(rng, 6, 24)
+        r1, r2 = float(rng.uniform(1, min(s) * 0.4)), float(rng.uniform(1, min(s) * 0.4))
+        sh = (int(rng.integers(-2, 3)), int(rng.integers(-2, 3)))
+        ctx.case({'op': 'shape-sequence', 'shape': list(s)}, ['shape:sequence'])
+        seq = [('circle', dict(radius=r1), (0, 0), True), ('circle', dict(radius=r2), (0, 0), True), ('circle', dict(radius=r1), sh, True),
+               ('circle', dict(radius=r1), (0, 0), False), ('circle', dict(radius=r1), (0, 0), True),
+               ('hexagon', dict(radius=r1, rotate=False), (0, 0), True), ('hexagon', dict(radius=r1, rotate=True), (0, 0), True),
+               ('hexagon', dict(radius=r1, rotate=False), (0, 0), True),
+               ('rectangle', dict(width=r1, height=r2, angle=0.0), (0, 0), True), ('rectangle', dict(width=r1, height=r2, angle=30.0), (0, 0), True),
+               ('rectangle', dict(width=r1, height=r2, angle=0.0), (0, 0), True)]
+        seen = {}
+        for kind, p, shift, aa in seq:
+            m = _draw(lentil, kind, s, p, shift, aa)
+            key = (kind, tuple(sorted(p.items())), shift, aa)
+            if key in seen:
+                ctx.check(np.array_equal(m, seen[key]), 'shape:translate', f'shape|sequence|{kind}',
+                          'the same drawing call gives another result after calls with other arguments', {'kind': kind, 'p': p})
+            else:
+                seen[key] = m.copy()
+                # compare with the closed-form antialiased / binary definition of the margin model
+                marg = _margin(kind, s, p, shift)
+                if kind == 'circle' and aa:
+                    rr, cc = _coords(s, shift)
+                    ref = np.clip(p['radius'] + 0.5 - np.sqrt(rr ** 2 + cc ** 2), 0, 1).astype(float)
+                    ctx.close('shape:range', m, ref, 1e-12, 'shape|circle|value', 'antialiased circle is not clip(radius + 0.5 - r, 0, 1)',
+                              {'p': p, 'shift': list(shift)}, scale=1.0)
 
     # ---- spider: range and binarity (its bar has a finite, shape-dependent length, so exact translation is not expected) ----
     for i in range(n // 4):
